@@ -228,6 +228,13 @@ Record outcome := mkOut {
 }.
 
 
+Record outcome2 := mkOut2 {
+  p_ret1 : ret; p_ret2 : ret;
+  p_reset : option bool;          (* Reset returned nil; None = not called (dial failed) *)
+  p_results1 : list mres; p_results2 : list mres;
+  p_world : world
+}.
+
 Section Client.
 Variable X : expects.
 
@@ -463,7 +470,9 @@ Definition close_with (st : state) : state * bool :=
        | (st1, RErr _) => (st1, false)
        end.
 
-(* DialAndSendWithContext (up to the first QUIT) *)
+(* DialAndSendWithContext (up to the first QUIT); the same dialogue as DialAndSend and as
+   DialWithContext + Send + Close; SendWithSMTPClient on a client from DialToSMTPClientWithContext followed by
+   CloseWithSMTPClient is the same program per connection *)
 Definition dial_and_send (ms : list msg) (w : world) : outcome :=
   match dial w with
   | (w1, None) => mkOut RetDial (untouched ms) w1 None
@@ -475,6 +484,24 @@ Definition dial_and_send (ms : list msg) (w : world) : outcome :=
       end
   end.
 
+(* a second program over the same functions: DialWithContext; Send(ms1); Reset; Send(ms2); Close *)
+Definition dial_send_reset_send (ms1 ms2 : list msg) (w : world) : outcome2 :=
+  match dial w with
+  | (w1, None) => mkOut2 RetDial RetDial None (untouched ms1) (untouched ms2) w1
+  | (w1, Some c) =>
+      match send_batch ms1 (c, w1) with
+      | (st2, (r1, rs1)) =>
+          match reset_with st2 with
+          | (st3, re) =>
+              match send_batch ms2 st3 with
+              | (st4, (r2, rs2)) =>
+                  let (st5, closed) := close_with st4 in
+                  mkOut2 r1 r2 (Some (match re with None => true | Some _ => false end)) rs1 rs2 (snd st5)
+              end
+          end
+      end
+  end.
+
 End Client.
 
 (* ---------- projections used by the correspondence and the theorems ---------- *)
@@ -483,6 +510,10 @@ Definition all_legal (w : world) : bool := forallb ev_legal (w_trace w).
 Definition attr_match (p : option nat * nat) : bool :=
   match fst p with Some t => Nat.eqb t (snd p) | None => false end.
 Definition all_attributed (w : world) : bool := forallb attr_match (w_attr w).
+
+Definition run_reset (X : expects) (F : fixes) (cfg : config) (caps caps_tls : list ext) (script : list decision)
+           (ms1 ms2 : list msg) (render : msg -> list bytes * option err) : outcome2 :=
+  dial_send_reset_send X F cfg render ms1 ms2 (world_init caps caps_tls script).
 
 Definition run_case (X : expects) (F : fixes) (cfg : config) (caps caps_tls : list ext) (script : list decision)
            (ms : list msg) (render : msg -> list bytes * option err) : outcome :=
